@@ -6,7 +6,7 @@ import (
 	"fmt"
 	"sort"
 
-	"github.com/mit-pdos/go-nfsd/nfs"
+	"github.com/mit-pdos/go-nfsd/nfstypes"
 )
 
 type Node struct {
@@ -115,7 +115,7 @@ func (p *Probe) Digest(size uint64, read func(off, cnt uint64) []byte) string {
 }
 
 // ListDir enumerates a directory completely with READDIRPLUS.
-func ListDir(srv *nfs.Nfs, dir []byte) ([]Ent, error) {
+func ListDir(srv nfstypes.NFS_PROGRAM_NFS_V3_handler, dir []byte) ([]Ent, error) {
 	var all []Ent
 	cookie := uint64(0)
 	for i := 0; i < 100000; i++ {
@@ -140,7 +140,7 @@ func ListDir(srv *nfs.Nfs, dir []byte) ([]Ent, error) {
 }
 
 // Dump walks the whole tree through the API only.
-func Dump(srv *nfs.Nfs, p *Probe) (map[string]Node, error) {
+func Dump(srv nfstypes.NFS_PROGRAM_NFS_V3_handler, p *Probe) (map[string]Node, error) {
 	out := map[string]Node{}
 	if p == nil {
 		p = DefaultProbe
@@ -232,7 +232,7 @@ func DumpString(d map[string]Node) string {
 // ExactDump is the dump used by C10: everything a client can observe, exactly -
 // handle bytes, every attribute incl. times and nlink, listing order and
 // cookies of READDIR and READDIRPLUS, every byte (within the probe).
-func ExactDump(srv *nfs.Nfs, p *Probe) string {
+func ExactDump(srv nfstypes.NFS_PROGRAM_NFS_V3_handler, p *Probe) string {
 	var b []byte
 	w := func(f string, a ...interface{}) { b = append(b, fmt.Sprintf(f, a...)...) }
 	var walk func(path string, fh []byte, depth int)
